@@ -17,6 +17,7 @@ mod c09;
 mod gen;
 mod c10;
 mod c11;
+mod c12;
 mod c13;
 mod c14;
 mod c16;
@@ -105,6 +106,7 @@ fn main() {
         "C09" => c09::run(&mut ctx),
         "C10" => c10::run(&mut ctx),
         "C11" => c11::run(&mut ctx),
+        "C12" => c12::run(&mut ctx),
         "C13" => c13::run(&mut ctx),
         "C14" => c14::run(&mut ctx),
         "C16" => c16::run(&mut ctx),
